@@ -381,9 +381,10 @@ func init() {
 		insts["__loop"] = &l.implInst
 		defer delete(insts, "__loop")
 		before := appBefore(l)
+		txnBefore := lastTxnID(l.env)
 		out := implOps["env.app"]([]string{"__loop", a[1]})
 		if strings.HasPrefix(out, "ok") {
-			trackApp(l, a[1], before)
+			trackApp(l, a[1], before, lastTxnID(l.env) > txnBefore)
 		}
 		return out
 	}
@@ -482,6 +483,7 @@ func init() {
 			return finish(implOps["loop.go"](a[:4]))
 		}
 		before := appBefore(l)
+		txnBefore := lastTxnID(l.env)
 		opened := make(chan struct{})
 		hold := make(chan struct{})
 		done := make(chan string, 1)
@@ -503,7 +505,7 @@ func init() {
 			time.Sleep(2 * time.Millisecond) // the loop reaches env.Update and waits for the lock
 			close(hold)
 			if out := <-done; strings.HasPrefix(out, "ok") {
-				trackApp(l, a[4], before)
+				trackApp(l, a[4], before, lastTxnID(l.env) > txnBefore)
 			}
 			delete(insts, "__loopheld")
 		}
